@@ -6,9 +6,13 @@ cd "$(dirname "$0")/.."
 for d in seeded/*/; do
   name=$(basename "$d")
   echo "$name" | grep -qE "$only" || continue
-  prop=$(python3 -c "import json;print(json.load(open('$d/meta.json'))['property'])")
-  res=$(SKIP_REPO_TESTS=1 selftest/seeded_run.sh "$d" "$prop" "$tier" 2>&1)
-  verdict=$(echo "$res" | grep -E "^(CAUGHT|MISSED)" | head -1)
+  # the check that is expected to catch the change: the property it breaks, unless meta.json names others ("check_with",
+  # e.g. concurrency defects in a package whose own property is sequential are C19's business)
+  prop=$(python3 -c "import json;m=json.load(open('$d/meta.json'));print(' '.join(m.get('check_with') or [m['property']]))")
+  set -- $prop; first=$1; shift
+  res=$(SKIP_REPO_TESTS=1 selftest/seeded_run.sh "$d" "$first" "$tier" "$@" 2>&1)
+  verdict=$(echo "$res" | grep -E "^CAUGHT" | head -1)
+  [ -n "$verdict" ] || verdict=$(echo "$res" | grep -E "^MISSED" | head -1)
   key=$(echo "$res" | grep -E "^  key=" | head -1 | cut -c1-160)
   demo=$(echo "$res" | grep -E "^demo" | head -1)
   echo "$name | $verdict | $key | $demo"
